@@ -206,7 +206,7 @@ func c20World(t *testing.T, r *simcore.Run) any {
 	cert, pool := mkCert([]string{keHost}, []string{ipSrvIP})
 	prov := ntske.NewProvider()
 	w.startListeners(2, prov)
-	lst, err := w.net.ListenStream(fmt.Sprintf("%s:%d", ipSrvIP, kePort), nil)
+	lst, err := w.net.ListenStream(hp(ipSrvIP, kePort), nil)
 	if err != nil {
 		panic(err)
 	}
